@@ -22,6 +22,15 @@
      inc    include context [vfs, sys, hasSys, base, hasBase]                            *)
 EXTENDS BareLib
 
+\* (defined here because library calls use them too; the include section restates them under their usual names)
+IsLowerAZ0(c) == c >= 97 /\ c <= 122
+IsURL0(s) == \E k \in 2..Len(s) : s[k] = 58 /\ \A j \in 1..(k - 1) : IsLowerAZ0(s[j])
+LastSlash0(s) == IF \E k \in 1..Len(s) : s[k] = 47
+                 THEN CHOOSE k \in 1..Len(s) : s[k] = 47 /\ \A j \in (k + 1)..Len(s) : s[j] # 47 ELSE 0
+ResolveRef(base, ref) ==
+    IF IsURL0(ref) THEN ref ELSE IF ref # <<>> /\ ref[1] = 47 THEN ref ELSE SubSeq(base, 1, LastSlash0(base)) \o ref
+VfsIndexOf(vfs, url) == IF \E i \in 1..Len(vfs) : vfs[i].url = url THEN CHOOSE i \in 1..Len(vfs) : vfs[i].url = url ELSE 0
+
 EvR(v, st) == [v |-> v, st |-> st]
 Fail(st, kind, arg) == [st EXCEPT !.exc = kind, !.excArg = arg]
 Skip(st) == IF st.exc = "" THEN Fail(st, "skip", "") ELSE st
@@ -125,6 +134,17 @@ BindParams(def, args, heap0) ==
                   ELSE IF j <= Len(args) THEN args[j] ELSE Null
     IN [m |-> [nm \in names |-> val(pos(nm))], heap |-> restv.heap]
 
+\* systemFetch: fetch urls[i..] in order -> [vs, st]
+RECURSIVE FetchAll(_, _, _, _, _)
+FetchAll(items, i, urls, st, acc) ==
+    IF i > Len(urls) THEN [vs |-> acc, st |-> st]
+    ELSE LET url == IF st.inc.hasBase THEN ResolveRef(st.inc.base, urls[i]) ELSE urls[i]
+             j == VfsIndexOf(st.inc.vfs, url)
+             got == st.inc.hasFetch /\ j # 0 /\ st.inc.vfs[j].kind \in {"text", "broken"}
+             st1 == IF st.inc.hasFetch THEN Emit(st, [ev |-> "fetch", url |-> url]) ELSE st
+             st2 == IF ~got /\ st.dbg THEN Emit(st1, [ev |-> "dbgfail", name |-> "systemFetch"]) ELSE st1
+         IN FetchAll(items, i + 1, urls, st2, Append(acc, IF got THEN Str(st.inc.vfs[j].cps) ELSE Null))
+
 \* callbacks are specified for script functions (possibly through systemPartial) only
 RECURSIVE IsScriptFn(_)
 IsScriptFn(f) == f.t = "fn" /\ (f.f = "script" \/ (f.f = "partial" /\ IsScriptFn(f.fn)))
@@ -177,6 +197,23 @@ CallFn(name, f, args, st, fuel) ==
                  THEN LET k == CHOOSE k \in DOMAIN st.names : st.names[k] = nm IN
                       EvR(val.vs[2], [st EXCEPT !.g = (k :> val.vs[2]) @@ @])
                  ELSE EvR(Null, Skip(st))
+        ELSE IF ln = "systemFetch" THEN
+            \* url | request object | array of those; each URL is resolved against the running script (urlFn),
+            \* fetched in order through the host fetchFn; a failed fetch gives null (reported in debug mode)
+            IF Len(args) # 1 THEN Failed(name, Null, st)
+            ELSE LET a == args[1]
+                     isArr == a.t = "array"
+                     items == IF isArr THEN st.heap[a.r].v ELSE <<a>>
+                     okItem(x) == x.t = "str" \/ (x.t = "object" /\ LET ps == st.heap[x.r].v IN
+                                        /\ PairIndex(ps, <<117, 114, 108>>) # 0 /\ ps[PairIndex(ps, <<117, 114, 108>>)].val.t = "str"
+                                        /\ \A p \in 1..Len(ps) : ps[p].key \in {<<117, 114, 108>>, <<98, 111, 100, 121>>, <<104, 101, 97, 100, 101, 114, 115>>}
+                                        /\ (PairIndex(ps, <<98, 111, 100, 121>>) # 0 => ps[PairIndex(ps, <<98, 111, 100, 121>>)].val.t = "str")
+                                        /\ PairIndex(ps, <<104, 101, 97, 100, 101, 114, 115>>) = 0)
+                     urlOf(x) == IF x.t = "str" THEN x.v ELSE st.heap[x.r].v[PairIndex(st.heap[x.r].v, <<117, 114, 108>>)].val.v
+                 IN IF a.t \notin {"str", "object", "array"} \/ \E i \in 1..Len(items) : ~okItem(items[i]) THEN Failed(name, Null, st)
+                    ELSE LET r == FetchAll(items, 1, [i \in 1..Len(items) |-> urlOf(items[i])], st, <<>>) IN
+                         IF isArr THEN LET al == Alloc("array", r.vs, r.st.heap) IN EvR(al.v, [r.st EXCEPT !.heap = al.heap])
+                         ELSE EvR(r.vs[1], r.st)
         ELSE IF ln = "systemPartial" THEN
             LET val == Validate(Signatures[ln], args, st.heap) IN
             IF ~val.ok \/ val.vs[2].v = <<>> THEN Failed(name, Null, st)
